@@ -487,7 +487,7 @@ func (m *Machine) Apply(a *Action) (Outcome, error) {
 	case "regToken":
 		tok := make([]byte, 32)
 		copy(tok, []byte{0xaa, byte(a.N), byte(a.N >> 8), 0x01})
-		return fromCall(c.Precompile(m.caller(a.Caller), sim.AssetsPrecompileAddr, c.AssetsABI(), "registerToken", uint32(a.Lz), tok, uint8(6), fmt.Sprintf("tok-%d", a.N), "probe", fmt.Sprintf("TOK%d,Ethereum,8", a.N)))
+		return fromCall(c.Precompile(m.caller(a.Caller), sim.AssetsPrecompileAddr, c.AssetsABI(), "registerToken", uint32(a.Lz), tok, uint8(6), fmt.Sprintf("tok-%d", a.N), "probe", fmt.Sprintf("TOK%d,Ethereum,8%s", a.N, []string{"", ",0", ",7", ",10", ",0,0x01"}[a.Ident%5])))
 	case "updToken":
 		as := m.W.Cfg.Assets[a.Asset]
 		return fromCall(c.Precompile(m.caller(a.Caller), sim.AssetsPrecompileAddr, c.AssetsABI(), "updateToken", uint32(as.LzID), pad32b(as.AddrBytes()), "probe-"+fmt.Sprint(a.N)))
